@@ -284,7 +284,7 @@ def disjoint_ts(draw, tier="quick"):
         if ivs and ivs[-1][1] == L:
             tags.append("deleted_right_flank")
     # extra sites
-    mode = draw(st.sampled_from(["none", "safe", "safe", "edgeless", "edgeless"]))
+    mode = draw(st.sampled_from(["none", "safe", "safe", "safe", "safe", "edgeless"]))
     if mode != "none" and ts.num_nodes:
         items = []
         pieces = node_pieces(ts)
